@@ -10,7 +10,7 @@ Known deviation of the pinned tree (found by this obligation): `pack_bits_19` OR
 (`*ptr++ |= static_cast<uint8_t>(values[4] >> 7);`, bit_packing.hpp line 564), so its layout is the documented one
 only on a zero-filled output block.  The byte-vector writer passes a zero-filled vector, the STREAM writer re-uses one
 block buffer: `serialize_compressed(std::ostream&)` writes a wrong image for entry width 19 and >= 16 entries
-(known finding C09 `theta_v4/stream-ne-bytes`, proposed_fixes/C09-pack-bits-19.patch).  The statement below holds on
+(known finding C09 `theta_v4/eb19/stream-ne-bytes`, proposed_fixes/C09-pack-bits-19.patch).  The statement below holds on
 the pinned tree and on the repaired tree, and on no tree with any other deviation; `Gen/BitPackFinding.lean` holds
 `bitpack_layouts_full_false` for the pinned tree.
 -/
